@@ -337,9 +337,10 @@ def file_number(rep, prog):
     else:
         if ii.enclosing(calls[0], ("ForStmt", "WhileStmt", "DoStmt", "CXXForRangeStmt", "LambdaExpr")) is not None:
             why = "save_mesh is called inside a loop"
-        for c, pol in ii.guards(calls[0]):
+        from ..model import facts_at
+        for c, pol in facts_at(it, ii, calls[0]):       # guards as atomic facts, const locals expanded
             t = render(strip(c)).replace(" ", "")
-            if not (("is_step_tmp()" in t) and ((t.startswith("!") and pol) or (not t.startswith("!") and not pol))):
+            if not (("is_step_tmp()" in t) and not pol):
                 why = "save_mesh is only called under %s%s" % ("" if pol else "not ", short(c, 60))
     if why is None:
         rep.ok("C19.file-number", prog, it, calls[0], "save_mesh is called once in every (non-temporary) iteration: the file number can never skip a value when S >= dt")
